@@ -163,6 +163,11 @@ func (g *htmlGen) attrsFor(name string) []hAttr {
 		add(r.Pick([]string{"class", "id", "dir"}), "")
 	}
 	if r.Chance(1, 10) {
+		// values that are the default of some *other* attribute: only the right attribute may lose them
+		add(r.Pick([]string{"name", "value", "title", "data-x", "form", "class", "id", "headers", "for"}),
+			r.Pick([]string{"submit", "text", "get", "GET", "1", "all", "rect", "text/css", "text/javascript", "button", "post", "screen", "application/x-www-form-urlencoded"}))
+	}
+	if r.Chance(1, 10) {
 		add("lang", r.Pick([]string{"en", " en-US ", "nl"}))
 	}
 	if r.Chance(1, 10) {
@@ -338,7 +343,20 @@ func (g *htmlGen) phrasing(depth int) []*hNode {
 			}
 			out = append(out, &hNode{name: name, attrs: g.attrsFor(name)})
 		case k < 9 && !g.inInteractive:
-			switch r.Intn(3) {
+			switch r.Intn(4) {
+			case 3:
+				// media/object elements with fallback content (their end tag is followed by ordinary text)
+				name := r.Pick([]string{"video", "audio", "object", "canvas", "meter", "progress"})
+				nd := &hNode{name: name, kids: []*hNode{{text: r.Pick([]string{"fallback ", " no support", "x", "a  b "})}}}
+				switch name {
+				case "video", "audio":
+					nd.attrs = []hAttr{{"src", "a.mp4"}, {"controls", ""}}
+				case "object":
+					nd.attrs = []hAttr{{"data", "chart.svg"}}
+				case "meter", "progress":
+					nd.attrs = []hAttr{{"value", "1"}}
+				}
+				out = append(out, nd)
 			case 0:
 				out = append(out, g.selectEl("select"))
 			case 1:
